@@ -59,9 +59,34 @@ class Interp:
             self.ctx.assume(z3.Implies(z3.Not(sym.opt_is_none(v)), self.ref_wf_term(sym.opt_val(v).t)))
         return v
 
+    def from_any(self, val, ty):
+        """A value the engine only knows as Any / list[Any] (e.g. what tls.pull_list returns: the items produced by an
+        arbitrary item parser) stored where a precise type is declared: the typed value is UNCONSTRAINED (a fresh
+        well-formed value of the declared type; a list keeps its length).  Sound for every clause that does not depend on
+        the items' values - Python itself performs no conversion here.  (added for the TLS parsers)"""
+        if not isinstance(val, V) or val.ty == ty:
+            return val
+        tgt = ty.inner if isinstance(ty, TOpt) else ty
+        if val.ty == TAny and tgt != TAny and sym.sort_of(tgt) != z3.IntSort():
+            nv = sym.fresh(tgt, self.ctx.fresh_name("from_any"))
+        elif isinstance(val.ty, TList) and val.ty.elem == TAny and isinstance(tgt, TList) and tgt.elem != TAny:
+            arr = sym.list_arr(sym.fresh(tgt, self.ctx.fresh_name("from_any")))
+            nv = sym.list_mk(tgt.elem, sym.list_len(val), arr)
+        else:
+            return val
+        for f in sym.wf(nv):
+            self.ctx.assume(f)
+        return nv
+
+    def isinstance_of(self, handle, clsname):
+        """the uninterpreted predicate "opaque object `handle` is an instance of the external class `clsname`" """
+        ids = self.registry.__dict__.setdefault("_isinst_ids", {})
+        f = z3.Function("isinstance_of", z3.IntSort(), z3.IntSort(), z3.BoolSort())
+        return f(handle, z3.IntVal(ids.setdefault(clsname, len(ids))))
+
     def write_field(self, ref: V, fname, val: V):
         owner, ty = self.field(ref.ty.cls, fname)
-        val = sym.coerce(val, ty)
+        val = sym.coerce(self.from_any(val, ty), ty)
         self.field_touched(owner, fname, ref.t, whole_write=val)  # dict sums (dictiter.py)
         self.heap.write(owner, fname, ty, ref.t, val.t)
 
@@ -375,7 +400,18 @@ class Interp:
         if ty == TAny and not self.spec:
             # data attribute of an opaque external object: an unconstrained opaque value (fresh at every read, so
             # nothing is assumed about it - not even that two reads agree); may be absent
-            if not self.ctx.branch(self.ctx.fresh_const(z3.BoolSort(), "hasattr_" + attr)):
+            # (added for C05/TLS) two refinements of "may be absent": `__class__` exists on every Python object; and the sidecar
+            # may declare R.consts["OPAQUE_HAS_ATTR"] = {attr: [external class names]} - an object that IS an instance of one
+            # of those classes (the uninterpreted isinstance_of predicate used by isinstance() on opaque values, spec form
+            # isa_opaque(x, 'Name')) has the attribute
+            present = self.ctx.fresh_const(z3.BoolSort(), "hasattr_" + attr)
+            if attr == "__class__":
+                present = z3.BoolVal(True)
+            else:
+                owners = self.registry.consts.get("OPAQUE_HAS_ATTR", {}).get(attr, [])
+                if owners:
+                    self.ctx.assume(z3.Implies(z3.Or(*[self.isinstance_of(base.t, n) for n in owners]), present))
+            if not self.ctx.branch(present):
                 raise PyRaise("AttributeError", implicit="opaque object without attribute %s" % attr, site=getattr(node, "lineno", None))
             return V(TAny, self.ctx.fresh_const(z3.IntSort(), "anyattr_" + attr))
         raise Unsupported("attribute %s of %s" % (attr, ty))
@@ -575,7 +611,11 @@ class Interp:
             clauses = contract.comps.get(ordn)
         for j, cl in enumerate(clauses or []):
             tree = self.parse_clause(cl)
+            # (relaxed for C05) applications of UNINTERPRETED functions (R.ufunc) are state independent too: allowed
+            ufn = {id(sub.func) for sub in ast.walk(tree) if isinstance(sub, ast.Call) and isinstance(sub.func, ast.Name) and sub.func.id in self.registry.ufuncs and not sub.keywords}
             for sub in ast.walk(tree):
+                if id(sub) in ufn or (isinstance(sub, ast.Call) and id(sub.func) in ufn):
+                    continue
                 if isinstance(sub, (ast.Attribute, ast.Call, ast.Subscript)) or (isinstance(sub, ast.Name) and sub.id not in (g.target.id, "_y", "True", "False", "None")):
                     raise Unsupported("comprehension element invariant may only mention %s and _y" % g.target.id)
             l1 = {g.target.id: item, "_y": elt}
